@@ -15,6 +15,18 @@ CLAIMED = {
          "Machine-checked proof (Coq 8.16): for every remaining duration in int64 the header the client writes decodes on the server to the whole milliseconds of it (never later than the caller's deadline, earlier by less than 1 ms; as deadlines: within transit), no deadline without a caller deadline, every non-negative int64 value with each of the six wire units gives min(v*unit, MaxInt64) (saturation, proved against the generated multiplication with its int64 wrap), the code's unit switch equals the wire specification's table, and no header string makes the server index out of range. Tied to the code by regenerating the fragments on every run and by running contextFromHeaders on a header grammar (all units, 1-20 digits, signs, spaces, non-ASCII, int64 boundaries per unit) and headersFromContext on log-uniform durations, both bracketed by clock reads, plus loopback end-to-end calls checked against the caller's deadline.",
          "Trusted: Coq kernel; go2coq; the model of strconv.ParseInt/%d (lib/Dec.v, validated by the runs); clock readings make each comparison an interval. A value whose digits exceed int64 (>= 19 digits; the wire format allows 8) gives NO deadline: accepted as saturation (never earlier than asked), as fixed in DESIGN.md section 7/C09.",
          "7/C09"),
+ "C15": ("Coq induction over arbitrary register/query/iterate/info histories of a list model of HandlerMap + random histories replayed on the real registry and the transports that delegate to it, with grpc.Server as reference for service info",
+         "Machine-checked proof (Coq 8.16): after ANY history of operations a name resolves to the first successful registration under it and to nothing if never successfully registered; a duplicate or ill-typed registration panics and leaves the registry equal; names stay pairwise distinct so iteration visits every registration exactly once; service info equals the reference server's for descriptors with distinct method names. Tied to the code by replaying random histories (shared/duplicate descriptors, conforming, stale-signature, partial, unrelated and nil handlers, arbitrary metadata values) on grpchan.HandlerMap, inprocgrpc.Channel and httpgrpc.Server, comparing every answer with the model and, for service info, with a real grpc.Server given the same successful registrations.",
+         "Trusted: Coq kernel; the list model of a Go map (iteration order is canonicalised by sorting); reflect-based interface conformance is an input of the model (the harness knows it by construction); grpc.Server's dedup of repeated method names is modelled by hand.",
+         "7/C15"),
+ "C16": ("Coq theorem that dispatch through a description decorated to any depth with arbitrary interceptor functions equals an independent chain specification + scripted interceptors interpreted on both sides over four carriers",
+         "Machine-checked proof (Coq 8.16): for ANY interceptor functions, ANY nesting depth, ANY transport-supplied interceptor and ANY method body, the handler produced by InterceptServer equals the specification spec_chain (transport first, decorations from the outermost in, then the method; each gets exactly what its predecessor passed on and returns exactly what it produced), with the correct full method name and flags; no interceptors returns the original; names, flags and metadata are preserved. Tied to the code by interpreting random interceptor scripts (rewrite request/context/response, call onward 0/1/2 times, fail) on both sides: the description called directly, through WithInterceptor registries, through inprocgrpc.Channel and through httpgrpc.Server on loopback, unary and all stream kinds, comparing the ordered event log, the info each interceptor saw and the outcome; the input description is snapshotted before and after.",
+         "Trusted: Coq kernel; the shape of handlers generated by protoc-gen-go-grpc (generated_handler) is an assumption about code outside grpchan; 'input description unmodified' is observed by the harness (pointer/name snapshot), not proved, since the model is pure.",
+         "7/C16"),
+ "C17": ("Coq induction over arbitrary stacks of client-interceptor layers + scripted client interceptors over fake, in-process and real *grpc.ClientConn bases",
+         "Machine-checked proof (Coq 8.16): for ANY nesting depth and nil/non-nil combination per layer, each unary (stream) call passes through the unary (stream) interceptor of every layer that has one exactly once, outermost first, and then reaches the base with method, request and options unchanged; layers without an interceptor of that kind are skipped; no interceptors returns the original channel, otherwise unwrapping yields the wrapped one; the connection argument is the base's *grpc.ClientConn at every depth (the immediate-type-assertion variant is refuted at depth 2). Tied to the code by interpreting random client-interceptor scripts on both sides over depth 0-4 stacks on a recording channel, an in-process channel and a real (lazily dialled) *grpc.ClientConn, comparing event log, options seen at the base, results, identity of cc and of Unwrap().",
+         "Trusted: Coq kernel; stream creation is modelled with the same routing shape as unary calls (the 'request' of a stream is a value carried in the context).",
+         "7/C17"),
  "C14": ("Coq theorems over tables regenerated from codes.go by a Go-AST translator + exhaustive differential/correspondence run",
          "Machine-checked proof (Coq 8.16): the code->HTTP and HTTP->code tables and the renderer guard are regenerated from /repo's source on every run and the theorems (documented table, error status for every non-OK code over all of Z, the 499 rule, recovery of every uint32 code through the %d/ParseInt/int32 round trip, OK iff 2xx for every integer status) are re-proved against them; the hand-written glue (header precedence) is tied to the code by running real server, real client and loopback end-to-end calls on all codes 0..40, boundary and random uint32 codes, and all HTTP statuses 100..599.",
          "Trusted: Coq kernel; the go2coq translator (differentially tested on every run against the real functions); the model of fmt %d / strconv.ParseInt (lib/Dec.v); net/http's handling of the status header on loopback is observed, not proved.",
